@@ -159,8 +159,13 @@ func (hs *hookState) hit(site string, kv ...string) {
 			}
 		}
 	}
-	if hs.cfg.GateSock != "" && label != "" && site != "req.enter" {
-		gate(hs.cfg.GateSock, label, site, m)
+	if hs.cfg.GateSock != "" && site != "req.enter" {
+		if label == "" && site == "ev.send" {
+			label = "ev" // the asynchronous sender goroutine belongs to no request
+		}
+		if label != "" {
+			gate(hs.cfg.GateSock, label, site, m)
+		}
 	}
 }
 
